@@ -63,6 +63,7 @@ type G struct {
 	inKey      int
 	condPats   int // patterns used so far in the condition being generated
 	decoActive map[string]int
+	seenPats   []*Pattern // patterns used so far (candidates for a byte-identical second pattern)
 }
 
 func (g *G) class(c string) { g.Classes[c] = true }
@@ -235,6 +236,7 @@ func tokTy(kind string) Ty {
 }
 
 func (g *G) pushCaps(p *Pattern) {
+	g.seenPats = append(g.seenPats, p)
 	for _, t := range p.Toks {
 		if t.Num > 0 {
 			g.scope = append(g.scope, capRef{Pat: p.ID, Name: t.Name, Num: t.Num, Ty: tokTy(t.Kind)})
@@ -576,6 +578,25 @@ func (g *G) genBool(d int, matchPat **Pattern) *Expr {
 		pat := &Pattern{ID: g.nextPat}
 		g.nextPat++
 		pat.Toks = []PatTok{{Kind: "lit", Lit: pick(g, "mre", []string{"o", "^[a-c]+$", "a", `\d`, "log", "^f"})}}
+		if len(g.seenPats) > 0 && g.chance("sametext", 25) {
+			// a second pattern with byte-identical text (unnamed groups only, so no name clashes)
+			src := pick(g, "samepat", g.seenPats)
+			named := false
+			for _, t := range src.Toks {
+				if t.Name != "" || t.Kind == "const" {
+					named = true
+				}
+			}
+			if !named {
+				pat.Toks = append([]PatTok(nil), src.Toks...)
+				pat.Anchor, pat.End = src.Anchor, src.End
+				g.class("two-patterns-same-text")
+				if matchPat != nil && *matchPat == nil {
+					*matchPat = pat
+				}
+				return &Expr{Op: "match", Ty: TBool, Args: []*Expr{l}, PatV: pat}
+			}
+		}
 		if matchPat != nil && *matchPat == nil && g.chance("mcapture", 40) {
 			pat.Toks = []PatTok{{Kind: pick(g, "mcapkind", []string{"int", "word", "abc"}), Num: 1, Name: fmt.Sprintf("c%d", g.nextCap)}}
 			g.nextCap++
@@ -773,6 +794,11 @@ func (g *G) genCond(depth int) *Stmt {
 			g.pushCaps(matchPat)
 		}
 	}
+	// any pattern inside the condition is in scope in both blocks and shadows
+	// outer numeric references there
+	if containsMatch(st.E) {
+		g.patsVis += 2
+	}
 	nThen := 1 + g.intn("nthen", 3)
 	st.Then = g.genBlock(depth+1, nThen, blockCtx{})
 	g.scope, g.patsVis = save, savePats
@@ -781,7 +807,7 @@ func (g *G) genCond(depth int) *Stmt {
 		g.class("else")
 		// the condition's own patterns are still in (syntactic) scope in the
 		// else block and shadow outer numeric references: no $N there
-		if st.Pat != nil || matchPat != nil {
+		if st.Pat != nil || matchPat != nil || containsMatch(st.E) {
 			g.patsVis += 2
 		}
 		st.Else = g.genBlock(depth+1, 1+g.intn("nelse", 2), blockCtx{inElse: true})
@@ -791,6 +817,21 @@ func (g *G) genCond(depth int) *Stmt {
 		g.class("nested-conditional")
 	}
 	return st
+}
+
+func containsMatch(e *Expr) bool {
+	if e == nil {
+		return false
+	}
+	if e.Op == "match" {
+		return true
+	}
+	for _, a := range e.Args {
+		if containsMatch(a) {
+			return true
+		}
+	}
+	return false
 }
 
 func (g *G) genDecoDef(name string) {
